@@ -92,7 +92,7 @@ Features == {
   F("ac_in_tree", 31, 39), F("ac_forbidden_agg", 32, 39), F("rp_list_forbidden_agg", 32, 39),
   F("ac_string_suffix", 33, 39), F("ac_mappings", 34, 39), F("alloc_put_mappings", 34, 39),
   F("ac_root_required", 35, 39), F("ac_same_subtree", 36, 39),
-  F("rp_reparent", 37, 39),
+  F("rp_reparent", 37, 39), F("rp_reparent_same_tree", 37, 39), F("rp_reparent_other_tree", 37, 39),
   F("alloc_put_consumer_type_required", 38, 39), F("alloc_get_consumer_type", 38, 39),
   F("usages_consumer_type", 38, 39),
   F("ac_required_in", 39, 39), F("rp_list_required_in", 39, 39) }
